@@ -22,10 +22,10 @@ namespace hist {
 static const int P = 10;  // client slots
 
 enum Op { H_NEW, H_NEWTREE, H_LOAD, H_COPY, H_INCREF, H_DECREF, H_IDECREF, H_PUSH, H_PUSH_MOVE, H_SET, H_REPLACE, H_GET, H_MAP_ADD, H_ADD_CHUNK,
-          H_TAG_SET, H_TAG_GET, H_TAG_BUILD, H_SERIALIZE, H_SIZE, H_DESCRIBE, H_BORROW, H_RESET_HANDLE, H_COUNT };
+          H_TAG_SET, H_TAG_GET, H_TAG_BUILD, H_SERIALIZE, H_SIZE, H_DESCRIBE, H_BORROW, H_RESET_HANDLE, H_MAP_ADD_MOVE, H_CHUNK_MOVE, H_TAG_SET_MOVE, H_COUNT };
 static inline const char* op_name(int o) {
   static const char* n[] = {"new", "newtree", "load", "copy", "incref", "decref", "intermediate_decref", "push", "push_move", "set", "replace", "get", "map_add", "add_chunk",
-                            "tag_set", "tag_get", "tag_build", "serialize", "size", "describe", "borrow", "reset_handle"};
+                            "tag_set", "tag_get", "tag_build", "serialize", "size", "describe", "borrow", "reset_handle", "map_add_move", "add_chunk_move", "tag_set_move"};
   return o < H_COUNT ? n[o] : "?";
 }
 
@@ -354,16 +354,20 @@ struct Interp {
         note("get(s" + std::to_string(sa) + "," + std::to_string(idx) + ")");
         break;
       }
-      case H_MAP_ADD: {
+      case H_MAP_ADD: case H_MAP_ADD_MOVE: {
         int sa = pick_typed(a, [](const MNode& n) { return n.type == 5; }); int sk = pick_slot(b); int sv = pick_slot(c);
         if (sa < 0 || sk < 0 || sv < 0) return;
         int A = slot[sa], K = slot[sk], V = slot[sv];
         if (reaches(K, A) || reaches(V, A)) return;
         MNode& m = nodes[A]; size_t size = m.out.size() / 2;
         bool full = !m.indef && size >= m.cap; if (full) boundary_hits++;
+        bool moving = op == H_MAP_ADD_MOVE;
+        if (moving && (full || sk == sv)) return;   // cbor_move gives away client references: only when the add will succeed, and from two distinct slots
         uint64_t before = use_va ? va::g.reallocs : ar::g.reallocs;
         struct cbor_pair pr; pr.key = nodes[K].item; pr.value = nodes[V].item;
-        bool ok = LC(cbor_map_add(m.item, pr));
+        bool ok;
+        if (moving) { ok = LC(cbor_map_add(m.item, (struct cbor_pair){cbor_move(nodes[K].item), cbor_move(nodes[V].item)})); nodes[K].client--; nodes[V].client--; slot[sk] = -1; slot[sv] = -1; }
+        else ok = LC(cbor_map_add(m.item, pr));
         reallocs_seen += (use_va ? va::g.reallocs : ar::g.reallocs) - before;
         if (ok == full) flag("C12", std::string("map_add on a ") + (m.indef ? "indefinite" : "definite") + " map of size " + std::to_string(size) + "/" + std::to_string(m.cap) + " returned " + (ok ? "true" : "false"));
         if (ok) { nodes[A].out.push_back(K); nodes[A].out.push_back(V); nodes[K].in++; nodes[V].in++; }
@@ -372,19 +376,32 @@ struct Interp {
         if (check_lists) check_contents(A, nm);
         break;
       }
-      case H_ADD_CHUNK: {
+      case H_ADD_CHUNK: case H_CHUNK_MOVE: {
         int sa = pick_typed(a, [](const MNode& n) { return (n.type == 2 || n.type == 3) && n.indef; }); if (sa < 0) return;
         int A = slot[sa]; int want = nodes[A].type;
         int sb = pick_typed(b, [want](const MNode& n) { return n.type == want && !n.indef; }); if (sb < 0) return;
         int B = slot[sb];
         uint64_t before = use_va ? va::g.reallocs : ar::g.reallocs;
-        bool ok = want == 2 ? LC(cbor_bytestring_add_chunk(nodes[A].item, nodes[B].item)) : LC(cbor_string_add_chunk(nodes[A].item, nodes[B].item));
+        bool ok;
+        if (op == H_CHUNK_MOVE) { ok = want == 2 ? LC(cbor_bytestring_add_chunk(nodes[A].item, cbor_move(nodes[B].item))) : LC(cbor_string_add_chunk(nodes[A].item, cbor_move(nodes[B].item))); nodes[B].client--; slot[sb] = -1; }
+        else ok = want == 2 ? LC(cbor_bytestring_add_chunk(nodes[A].item, nodes[B].item)) : LC(cbor_string_add_chunk(nodes[A].item, nodes[B].item));
         reallocs_seen += (use_va ? va::g.reallocs : ar::g.reallocs) - before;
         if (!ok) flag("C12", "add_chunk refused on a chunked string");
         if (ok) { nodes[A].out.push_back(B); nodes[B].in++; }
         effective++;
         note("add_chunk(s" + std::to_string(sa) + ",s" + std::to_string(sb) + ")");
         if (check_lists) check_contents(A, nm);
+        break;
+      }
+      case H_TAG_SET_MOVE: {   // cbor_tag_set_item(tag, cbor_move(item)) on an empty tag: the client's reference becomes the tag's
+        int sa = pick_typed(a, [](const MNode& n) { return n.type == 6 && n.out.empty(); }); int sb = pick_slot(b);
+        if (sa < 0 || sb < 0) return;
+        int A = slot[sa], B = slot[sb];
+        if (reaches(B, A)) return;
+        LCV(cbor_tag_set_item(nodes[A].item, cbor_move(nodes[B].item)));
+        nodes[A].out.push_back(B); nodes[B].in++; nodes[B].client--; slot[sb] = -1;
+        effective++;
+        note("tag_set_move(s" + std::to_string(sa) + ",s" + std::to_string(sb) + ")");
         break;
       }
       case H_TAG_SET: {
